@@ -55,7 +55,9 @@ CHECKS = {
          TRUST + "; trusted mathematics: hedge criterion (Shpitser & Pearl 2006) = Tian-Pearl c-component criterion used by the oracle; assumed contracts: p_conditional, Product.safe over an index set (opaque)",
          TECH + " + bounded end-to-end check against an independent identifiability oracle", "DESIGN.md §5 C02"),
  "C01": ("other", "Shape layer proved for all graphs/queries: line_1, line_2, line_3, line_4, line_7 of ID build exactly the published recursive arguments -- outcomes, treatments (x & An(Y); x | W; v - s_i per district s_i of G-X; x & S'), "
-         "graph (G[An(Y)]; G; G[S']) and the summation ranges (V-Y; V-An(Y)) -- and `identify` follows the published case split (see C02). The expressions built in lines 4, 6, 7 "
+         "graph (G[An(Y)]; G; G[S']) and the summation ranges (V-Y; V-An(Y)) -- and `identify` follows the published case split (see C02); line_6 (the function) has its three guards "
+         "proved and, as obligations at its call sites, that it sums over exactly S-Y and takes every conditional for a node of S over an ordering of the graph's nodes; the two sums "
+         "identify() builds itself (lines 4 and 6) are proved to range over exactly V-X-Y. The expressions built in lines 4, 6, 7 "
          "(products of conditionals over a district, p_conditional) are opaque to the prover; that the returned estimand equals P(Y|do(X)) is decided by the labelled bounded stand-in: "
          "exact evaluation on random positive SCMs (one latent per bidirected edge), all value assignments including free variables, for every ADMG on 2-3 nodes x every query, a "
          "catalogue of textbook graphs (napkin, front-door, Verma, ...; extended with two 5-6 node shapes after seeded changes were missed), and sampled 4-6 node ADMGs.",
